@@ -81,6 +81,8 @@ pub fn c04_bound(cx: &mut Ctx) {
             }
         }
     }
+    // a refusal is legitimate only if the capacity really was in use while the client waited
+    refused_while_free(cx);
     // somebody actually waited
     for c in h.clients.values() {
         for s in &c.steps {
@@ -170,4 +172,120 @@ pub fn header_of(msgs: &[Msg]) -> Vec<String> {
         }
     }
     Vec::new()
+}
+
+fn config_u64(spec: &Spec, key: &str, default: u64) -> u64 {
+    for l in spec.config_toml.lines() {
+        if let Some(v) = l.strip_prefix(&format!("{} = ", key)) {
+            if let Ok(n) = v.trim().parse::<u64>() {
+                return n;
+            }
+        }
+    }
+    default
+}
+
+/// "Clients beyond capacity wait and are served as connections are released (or get a pool error
+/// after the connect timeout)". A client that got the pool error must have found every candidate
+/// server's pool fully checked out for (almost) a whole connect_timeout. Holds are measured from
+/// the clients' side (send of a transaction's first message to receipt of its last reply), which
+/// over-approximates PgCat's own holds, so the oracle cannot blame PgCat wrongly.
+fn refused_while_free(cx: &mut Ctx) {
+    let h = cx.h;
+    let connect_timeout_us = config_u64(cx.spec, "connect_timeout", 5000) * 1000;
+    // hold intervals per host
+    let mut holds: BTreeMap<String, Vec<(u64, u64)>> = BTreeMap::new();
+    for c in h.clients.values() {
+        if !is_data_client(c) && c.role != "warmup" {
+            continue;
+        }
+        let session = cx.pool_mode(&c.database, &c.user) == "session";
+        let mut by_txn: BTreeMap<u32, (u64, u64, std::collections::BTreeSet<String>)> = BTreeMap::new();
+        for s in &c.steps {
+            for t in &s.tags {
+                if t.c != c.id {
+                    continue;
+                }
+                let key = if session { 0 } else { t.t };
+                let e = by_txn.entry(key).or_insert((s.start_us, s.done_us, Default::default()));
+                e.0 = e.0.min(s.start_us);
+                e.1 = e.1.max(s.done_us);
+                if let Some(v) = cx.ix.exec_by_tag.get(t) {
+                    for si in v {
+                        e.2.insert(h.backend_conns[h.stmts[*si].conn].host.clone());
+                    }
+                }
+                if let Some(v) = cx.ix.units_by_tag.get(t) {
+                    for (ci, _) in v {
+                        e.2.insert(h.backend_conns[*ci].host.clone());
+                    }
+                }
+            }
+        }
+        for (_, (a, mut b, hosts)) in by_txn {
+            if session {
+                // the session keeps its server until the client is gone
+                b = c.steps.last().map(|s| s.done_us).unwrap_or(b).max(b);
+            }
+            for host in hosts {
+                holds.entry(host).or_default().push((a, b));
+            }
+        }
+    }
+    for c in h.clients.values() {
+        if !is_data_client(c) {
+            continue;
+        }
+        for s in &c.steps {
+            let msg = match pooler_error(&s.msgs) {
+                Some(m) if m.contains("could not get connection from the pool") && m.contains("AllServersDown") => m,
+                _ => continue,
+            };
+            let _ = msg;
+            if cx.param_bool("server_faults") {
+                continue; // dead servers are a legitimate reason too; judged by C07
+            }
+            let (w0, w1) = (s.sent_us, s.done_us);
+            let pool_hosts: Vec<&crate::spec::HostSpec> = cx.spec.hosts.iter().filter(|x| x.pool == c.database && x.role != "mirror").collect();
+            let size = cx.pool_param(&c.database, &c.user, "size").and_then(|v| v.as_u64()).unwrap_or(1) as usize;
+            for hs in pool_hosts {
+                let iv = holds.get(&hs.addr).cloned().unwrap_or_default();
+                // sweep: longest stretch inside [w0,w1] with >= size concurrent holds (gaps < 50 ms tolerated)
+                let mut pts: Vec<u64> = vec![w0, w1];
+                for (a, b) in &iv {
+                    if *a > w0 && *a < w1 {
+                        pts.push(*a);
+                    }
+                    if *b > w0 && *b < w1 {
+                        pts.push(*b);
+                    }
+                }
+                pts.sort();
+                pts.dedup();
+                let mut best = 0u64;
+                let mut cur = 0u64;
+                let mut gap = 0u64;
+                for w in pts.windows(2) {
+                    let mid = (w[0] + w[1]) / 2;
+                    let n = iv.iter().filter(|(a, b)| *a <= mid && mid <= *b).count();
+                    let len = w[1] - w[0];
+                    if n >= size {
+                        cur += len + gap;
+                        gap = 0;
+                        best = best.max(cur);
+                    } else {
+                        gap += len;
+                        if gap >= 50_000 {
+                            cur = 0;
+                            gap = 0;
+                        }
+                    }
+                }
+                cx.probe("c04_refusal_judged");
+                if best + 100_000 < connect_timeout_us.min(w1 - w0) {
+                    cx.v("C04", "refused_while_capacity_free", "C04/refused_while_capacity_free", s.done_seq, format!("client {} step {} was refused a connection after waiting {} ms, but server {} (pool_size {}) was fully checked out for at most {} ms of that time (connect_timeout {} ms)", c.id, s.idx, (w1 - w0) / 1000, hs.addr, size, best / 1000, connect_timeout_us / 1000));
+                }
+            }
+        }
+    }
 }
